@@ -13,6 +13,26 @@ type Control struct {
 	Rule string // rule that must fire
 }
 
+// ControlBases names, for some controls (by Name), a stored
+// behaviour-preserving refactoring (<verif>/refactorings/<id>/patch.diff) that
+// is applied first: the mutation is then made in the refactored shape of the
+// code (a guard dropped inside an extracted helper, ...), so the rule is shown
+// to still decide the property after the refactoring, not merely to keep quiet.
+var ControlBases = map[string]string{
+	"refactored T04-4: plain opaque leaf for up to one cause":                        "T04-4",
+	"refactored T04-4: opaque helper keeps a constant message":                       "T04-4",
+	"refactored T10-1: sentinel helper called for non-leaves":                        "T10-1",
+	"refactored T10-1: helper trusts Is alone":                                       "T10-1",
+	"refactored T06-1: pass-through rebuilt from the status":                         "T06-1",
+	"refactored T06-1: helper keeps the first decoded error only when it has a text": "T06-1",
+	"refactored T03-1: synthetic exception filed under the type name":                "T03-1",
+	"refactored T07-3: attaching helper skipped when %w is used":                     "T07-3",
+	"refactored T06-3: explicit walk jumps to the root cause":                        "T06-3",
+	"refactored T07-1: join keeps the caller's slice":                                "T07-1",
+	"refactored T01-4: zero precision ignored in the early-return form":              "T01-4",
+	"refactored T07-4: one-error shortcut next to the nil shortcut":                  "T07-4",
+}
+
 // CleanVariant as a Control's Rule marks a behaviour-preserving variant (a
 // refactoring under which the property still holds): the property's rules
 // must report nothing new on it. These guard against false alarms the same
@@ -172,4 +192,17 @@ var Controls = []Control{
 	{"C20", "code invented for uncoded errors", "extgrpc/ext_grpc.go", `\treturn codes\.Unknown\n\}\n\n// it's an error\.`, "\treturn codes.Code(uint32(len(err.Error())) % 17)\n}\n\n// it's an error.", "R-CODE-GETTER"},
 	{"C11", "HTTP default replaced", "exthttp/ext_http.go", `\treturn defaultCode\n`, "\treturn 500\n", "R-CODE-GETTER"},
 	{"C20", "decoded error ignored", "grpc/middleware/client.go", `if reconstituted != nil \{\n\t\terr = reconstituted\n\t\}`, "if reconstituted != nil {\n\t\t_ = reconstituted\n\t}", "R-GRPC-FLOW"},
+	// controls made in the refactored shape of the code (ControlBases): the rule must still decide after the refactoring
+	{"C13", "refactored T04-4: plain opaque leaf for up to one cause", "errbase/decode.go", `func decodeOpaqueLeaf\(ctx context\.Context, enc \*errorspb\.EncodedErrorLeaf\) error \{\n\tif len\(enc\.MultierrorCauses\) == 0 \{`, "func decodeOpaqueLeaf(ctx context.Context, enc *errorspb.EncodedErrorLeaf) error {\n\tif len(enc.MultierrorCauses) <= 1 {", "R-TREE-RECURSION"},
+	{"C01", "refactored T04-4: opaque helper keeps a constant message", "errbase/decode.go", `opaqueLeaf: opaqueLeaf\{\n\t\t\tmsg:     enc\.Message,`, "opaqueLeaf: opaqueLeaf{\n\t\t\tmsg:     \"multi-cause error\",", "R-OPAQUE-TRANSPORT"},
+	{"C03", "refactored T10-1: sentinel helper called for non-leaves", "errutil/format_error_special.go", `if isLeaf && printSafeLeafSentinel\(err, p\) \{`, "if printSafeLeafSentinel(err, p) {", "R-SPECIAL-LEAF"},
+	{"C03", "refactored T10-1: helper trusts Is alone", "errutil/format_error_special.go", `if markers\.Is\(err, ref\) && err\.Error\(\) == ref\.Error\(\) \{\n\t\t\tp\.Print\(redact\.Safe\(ref\.Error\(\)\)\)`, "if markers.Is(err, ref) {\n\t\t\tp.Print(redact.Safe(err.Error()))", "R-SPECIAL-LEAF"},
+	{"C20", "refactored T06-1: pass-through rebuilt from the status", "grpc/middleware/client.go", `\t\treturn decoded\n\t\}\n\treturn err\n`, "\t\treturn decoded\n\t}\n\treturn status.Convert(err).Err()\n", "R-GRPC-FLOW"},
+	{"C20", "refactored T06-1: helper keeps the first decoded error only when it has a text", "grpc/middleware/client.go", `\t\t\tdecoded = errors\.DecodeError\(ctx, \*enc\)\n`, "\t\t\tif d := errors.DecodeError(ctx, *enc); d.Error() != \"\" {\n\t\t\t\tdecoded = d\n\t\t\t}\n", "R-GRPC-FLOW"},
+	{"C15", "refactored T03-1: synthetic exception filed under the type name", "report/report.go", `syntheticException\(module, leafErrorType, firstDetailLine\)\)`, "syntheticException(leafErrorType, leafErrorType, firstDetailLine))", "R-REPORT-SHAPE"},
+	{"C07", "refactored T07-3: attaching helper skipped when %w is used", "errutil/utilities.go", `\terr = withSecondaryErrors\(err, errRefs\)\n\terr = withstack\.WithStackDepth\(err, 1\+depth\)`, "\tif wrappedErr == nil {\n\t\terr = withSecondaryErrors(err, errRefs)\n\t}\n\terr = withstack.WithStackDepth(err, 1+depth)", "R-ERRREFS"},
+	{"C20", "refactored T06-3: explicit walk jumps to the root cause", "extgrpc/ext_grpc.go", `c = errbase\.UnwrapOnce\(c\) \{`, "c = errbase.UnwrapAll(c) {", "R-CODE-GETTER"},
+	{"C13", "refactored T07-1: join keeps the caller's slice", "join/join.go", `return &joinError\{errs: nonNil\}`, "return &joinError{errs: append(errs[:0], nonNil...)}", "R-OWNED-BRANCHES"},
+	{"C06", "refactored T01-4: zero precision ignored in the early-return form", "errbase/format_error.go", `hasWidthOrPrecision := \(okW && width > 0\) \|\| okP\n`, "hasWidthOrPrecision := (okW && width > 0) || (okP && width > 0)\n", "R-VERB-DISPATCH"},
+	{"C13", "refactored T07-4: one-error shortcut next to the nil shortcut", "errutil/utilities.go", `\tif joined == nil \{\n\t\t// No non-nil error: nothing to decorate\.\n\t\treturn nil\n\t\}\n`, "\tif joined == nil {\n\t\treturn nil\n\t}\n\tif len(errs) == 1 {\n\t\treturn withstack.WithStackDepth(errs[0], depth+1)\n\t}\n", "R-JOIN-NODE"},
 }
